@@ -297,6 +297,7 @@ def run (caseToks impl : List String) : String :=
   | ["mat", name, bytes] => MosnVerif.Drive.C08Chk.mat name bytes impl
   | ["h2pay", ty, flags, sid, payload] => MosnVerif.Drive.C08Chk.h2pay ty flags sid payload impl
   | ["h2hl", limit, fields] => MosnVerif.Drive.C08Chk.h2hl limit fields impl
+  | ["h2body", side, cl, chunks, endS] => MosnVerif.Drive.C08Chk.h2body side cl chunks endS impl
   | ["disp", proto, bytes] => disp proto bytes impl
   | ["pool", api, st] => pool api st impl
   | ["dmeta", listener, kinds, nargs, _] => MosnVerif.Drive.C08Dubbo.dmeta listener kinds nargs impl
